@@ -338,7 +338,7 @@ def _pop_guarded(e: Event, r: Result) -> Tuple[bool, str]:
         for atom in flow.bool_atoms(e.guard, []):
             if atom[0] in ("lt0", "le0") and _len_of(q) in set(T.walk(atom)):
                 peeks = [x for x in T.walk(atom) if x[0] == "index"]
-                pops = [x for x in T.walk(n) if x[0] == "call" and isinstance(x[1], str) and x[1].endswith(".popleft")]
+                pops = [x for x in T.walk(n) if x[0] == "call" and T.call_name(x).endswith(".popleft")]
                 if peeks and pops:
                     # the popped head element is what the guard peeked at
                     if any(_same_queue_head(pk, pp, n) for pk in peeks for pp in pops):
@@ -401,7 +401,7 @@ def _same_queue_head(peek: T.Term, pop: T.Term, n: T.Term) -> bool:
     path.reverse()
     if not path or T.const_value(path[0]) != 0:
         return False
-    qname = pop[1][: -len(".popleft")]
+    qname = T.call_name(pop)[: -len(".popleft")]
     if not (base[0] == "sym" and base[1] == qname):
         return False
     want = pop
@@ -780,8 +780,8 @@ def _tainted(t: Optional[T.Term]) -> Optional[str]:
     for x in T.walk(t):
         if x[0] == "sym" and ("real_time_factor" in x[1] or x[1].endswith("._ts_start")):
             return x[1]
-        if x[0] == "call" and isinstance(x[1], str) and (x[1] in WALL_SOURCES or x[1].endswith(".now") or x[1].endswith("_async_now")):
-            return x[1]
+        if x[0] == "call" and (T.call_name(x) in WALL_SOURCES or T.call_name(x).endswith(".now") or T.call_name(x).endswith("_async_now")):
+            return T.call_name(x)
     return None
 
 
